@@ -31,6 +31,25 @@ def sql_num(x):
     return repr(x)
 
 
+def spell_num(x, k):
+    """the same number written another way (every spelling reads back as the same float64)"""
+    base = sql_num(x)
+    if not k:
+        return base
+    x = float(x)
+    whole = x == math.floor(x) and 0 <= x < 1e15
+    if whole:
+        d = str(int(x))
+        alt = {1: "0" + d, 2: "00" + d, 3: d + ".0", 4: d + ".00", 5: "0" + d + ".0", 6: d + "e0", 7: d + "E0", 8: d + "."}.get(k)
+        if alt is not None and float(alt) == x:
+            return alt
+    if x >= 0 and k in (3, 4) and "e" not in base and "." in base:
+        return base + "0"
+    if 0 < x < 1 and k in (1, 2) and base.startswith("0."):
+        return base[1:]
+    return base
+
+
 KEYWORDS = {"key", "name", "value", "status", "date", "level", "code", "type", "user", "time", "data", "index", "order", "group",
             "select", "from", "where", "count", "limit", "offset", "values", "table", "column", "desc", "asc", "by", "as", "on"}
 
@@ -73,7 +92,7 @@ def expr_sql(e):
     if t == "num":
         v = e[1]
         from .common import dec_val
-        return sql_num(dec_val(v))
+        return spell_num(dec_val(v), hint(e, "spell", 0))
     if t == "str":
         return sql_str(e[1])
     if t == "col":
@@ -215,7 +234,11 @@ def query_sql(q):
         return s
     if q[0] == "union":
         _, ctes, l, r, distinct, order, limit, offset = q[:8]
-        s = ctes_sql(ctes) + query_sql(l) + (" UNION " if distinct else " UNION ALL ") + query_sql(r)
+        ls = query_sql(l)
+        if l[0] == "union" and (l[5] or l[6] is not None or l[7] is not None):
+            # a nested union with its own ORDER BY / LIMIT / OFFSET is written in parentheses
+            ls = "(" + ls + ")"
+        s = ctes_sql(ctes) + ls + (" UNION " if distinct else " UNION ALL ") + query_sql(r)
         s += tail_sql(order, limit, offset, hint(q, "limit_spelling", 0))
         return s
     raise ValueError(q[0])
@@ -225,6 +248,21 @@ def query_sql(q):
 
 def num(x):
     return ["num", enc_num(x)]
+
+
+def respell(node, rnd, p=0.1):
+    """give some numeric literals of a query another spelling (leading zeros, trailing .0, e0): in place"""
+    if isinstance(node, list):
+        if len(node) == 2 and node[0] == "num" and (isinstance(node[1], int) or (isinstance(node[1], dict) and "#" in node[1])):
+            if rnd.random() < p:
+                node.append({"spell": rnd.randint(1, 8)})
+            return node
+        for x in node:
+            respell(x, rnd, p)
+    elif isinstance(node, dict):
+        for x in node.values():
+            respell(x, rnd, p)
+    return node
 
 
 def col(*path, style=0):
@@ -275,6 +313,17 @@ def item(e, alias=""):
 WORDS = ["a", "b", "ab", "B", "x", "y", "apple", "Apple", "ant", "bee", "10", "9", "z z", "", "1", "1.0", "007", "-2", "a\tb", "a b", "a\u00a0b", "x\r", " x"]
 
 
+LOOKALIKES = [
+    ["2024-01-01T12:00:00Z", "2024-01-01T12:00:00.5Z", "2024-01-01T13:30:00+02:00", "2024-01-01T11:00:00-01:00", "2024-01-01T12:00:00.25Z",
+     "2023-12-31T23:59:59+00:00", "2024-01-01T00:00:00Z"],
+    ["2024-01-02", "2024-1-10", "2024-01-10", "01/02/2024", "2024-01-02 10:00:00", "2024-01-02 9:00:00"],
+    ["10", "9", "1e3", "1000", "0x10", "1_000", "+5", "5", "05", "5.0", ".5", "0.5", "1e+06", "1000000"],
+    ["true", "TRUE", "false", "True", "t", "1", "0", "yes"],
+    ["null", "NULL", "<nil>", "nil", "NaN", "Inf", "-Inf", "undefined"],
+    ["1.2.10", "1.2.9", "1.10", "1.9", "v2", "v10"],
+]
+
+
 def gen_table(rnd, ncols=None, nrows=None, kinds=None, nullable=False, names=None):
     """rows with typed columns; values from small pools so ties and boundaries are common"""
     ncols = ncols or rnd.randint(2, 4)
@@ -288,7 +337,12 @@ def gen_table(rnd, ncols=None, nrows=None, kinds=None, nullable=False, names=Non
                                [0.1, 0.2, 0.3, 0.7, 1.1], [16777216, 16777217, 16777218, 123456.789]])
             pools.append(base)
         elif k == "str":
-            pools.append(rnd.sample(WORDS, rnd.randint(2, 5)))
+            if rnd.random() < 0.15:
+                # strings that look like values of another type stay strings: whole columns (and the constants drawn from them)
+                # of timestamps in several spellings, dates, numbers, booleans, NULL words
+                pools.append(rnd.sample(rnd.choice(LOOKALIKES), rnd.randint(3, 5)))
+            else:
+                pools.append(rnd.sample(WORDS, rnd.randint(2, 5)))
         else:
             pools.append([True, False])
     rows = []
@@ -308,7 +362,10 @@ def gen_table(rnd, ncols=None, nrows=None, kinds=None, nullable=False, names=Non
 def gen_const(rnd, kind, pool):
     if kind == "num":
         v = rnd.choice(pool)
-        return num(v + rnd.choice([0, 0, 0, 1, -1, 0.5]))
+        e = num(v + rnd.choice([0, 0, 0, 1, -1, 0.5]))
+        if rnd.random() < 0.12:
+            e.append({"spell": rnd.randint(1, 8)})
+        return e
     if kind == "str":
         return ["str", rnd.choice(pool + ["m", "A"])]
     return ["bool", rnd.choice([True, False])]
